@@ -667,7 +667,9 @@ impl IoLoop {
                         PollOpt::edge(),
                     )
                     .context(RegisterWithPollHandleSnafu)?;
-            } else if had_data_to_write {
+            } else if had_data_to_write && !self.inner.has_data_to_write() {
+                // (if the very first write was cut short we are still registered for
+                // writable only and must stay that way until the rest has gone out)
                 trace!("reregistering socket for readable only");
                 have_written_to_socket = true;
                 self.poll
